@@ -190,7 +190,7 @@ def rand_matrix_op(rng, rs, n):
         B = np.round(rs.uniform(0.1, 1.0, (k // 2, k // 2)), 2)
         return dict(cls=kind, regs=regs, pars=[dec02.enc(B)], kw=dict(mean_photon_per_mode=0.2, edges=True))
     if kind == "GaussianTransform":
-        S = d17.symplectic_case(rs, k, rng.choice(["generic", "passive", "partial", "signs"]))
+        S = d17.symplectic_case(rs, k, rng.choice(["generic", "passive", "one_unsqueezed", "signs"]))
         return dict(cls=kind, regs=regs, pars=[dec02.enc(S)], kw=dict(vacuum=rng.random() < 0.3))
     V = d17.cov_case(rs, k, rng.choice(["generic", "pure", "thermal_diag", "vacuum"]))
     return dict(cls=kind, regs=regs, pars=[dec02.enc(V)], kw=dict(decomp=rng.random() < 0.6))
@@ -244,9 +244,13 @@ def corr_driver(ctx, sf):
         spec = dict(n=n, ops=ops_)
         prog = dec02.build_prog(spec)
         store = []
-        trees = [tree_of(c, comp.decompositions, store) for c in prog.circuit]
-        prog2 = dec02.build_prog(spec)
-        kind, out = real_run(comp, list(prog2.circuit))
+        try:
+            trees = [tree_of(c, comp.decompositions, store) for c in prog.circuit]
+            prog2 = dec02.build_prog(spec)
+            kind, out = real_run(comp, list(prog2.circuit))
+        except ValueError:          # a factorisation rejected its input (C17's business)
+            ctx.tally("driver:tree:factorisation-rejected-input")
+            continue
         cases.append(("tree", dict(compiler=cname, spec=spec), kind, out, store))
         reqs.append(dict(op="c02.compile", compiler=cname, fuel=12, cmds=trees))
         ctx.count(f"driver:tree:{cname}", spec, True)
@@ -361,7 +365,7 @@ def corr_mesh(ctx, sf):
                 real = mesh_real_canon(op._decompose(reg))
                 ident = bool(np.allclose(U, np.identity(m), atol=1e-13, rtol=0))
                 req = dict(op="c02.mesh", kind="interferometer", reg=regidx, tol=dec02.fr(tol), identity=ident,
-                           drop_identity=drop, symmetric="symmetric" in mesh,
+                           drop_identity=drop, symmetric="symmetric" in mesh, triangular=(mesh == "triangular"),
                            BS1=[[int(a), int(b), dec02.fr(t), dec02.fr(p)] for a, b, t, p, _ in BS1],
                            R=[(dec02.fr(np.log(e).imag) if abs(e - 1) >= tol else None) for e in R])
                 if BS2 is not None:
@@ -712,7 +716,8 @@ def matrix_case(ctx, sf, rp):
         st = dec02.run_spec(sf, spec, backend)
         a, N, M = sim.moments_gaussian(st, 2.0)
     except Exception as e:  # noqa: BLE001
-        ctx.fail(f"raises:{kind}:{type(e).__name__}", f"{kind} raised {type(e).__name__}: {e}", rp)
+        sig = rp["sig"] if "two-or-more-unsqueezed" in rp["sig"] else f"raises:{kind}:{type(e).__name__}"
+        ctx.fail(sig, f"{kind} raised {type(e).__name__}: {e}", rp)
         return
     ctx.oracle_cases += 1
     n = spec["n"]
@@ -741,13 +746,19 @@ def oracle_matrix_ops(ctx, sf):
         n = k + rng.choice([0, 1])
         regs = rng.sample(range(n), k)
         if kind == "GaussianTransform":
-            skind = rng.choice(["generic", "passive", "identity", "degenerate", "partial", "signs", "diag", "left_only", "perm_passive"])
+            skind = rng.choice(["generic", "passive", "identity", "degenerate", "partial", "one_unsqueezed", "signs", "diag",
+                                "left_only", "perm_passive"])
             S = d17.symplectic_case(rs, k, skind)
             vac = it % 5 == 4
             prefix = [] if vac else prefix_ops(rng, n)
             op = dict(cls=kind, regs=regs, pars=[dec02.enc(S)], kw=dict(vacuum=vac))
             spec = dict(n=n, ops=prefix + [op])
-            rp = dict(kind="matrix", mkind=kind, spec=spec, sig=f"gaussian-transform:{skind}:vacuum={vac}", backend="gaussian")
+            sv = np.linalg.svd(S, compute_uv=False)
+            unsq = int(np.sum(np.abs(sv - 1) < 1e-9)) // 2
+            sig = f"gaussian-transform:{skind}:vacuum={vac}"
+            if 2 <= unsq < k:      # the Bloch-Messiah factors themselves are wrong there (C17 known finding)
+                sig = "gaussian-transform:active-with-two-or-more-unsqueezed-modes"
+            rp = dict(kind="matrix", mkind=kind, spec=spec, sig=sig, backend="gaussian")
             ctx.count(f"gaussian-transform:{skind}", dict(S=np.round(S, 6).tolist(), r=regs, v=vac), skind != "identity",
                       sample=dict(skind=skind, targets=regs, vacuum=vac))
         else:
@@ -760,6 +771,8 @@ def oracle_matrix_ops(ctx, sf):
                 if it % 3 == 0:
                     A = A * np.round(rs.uniform(0.2, 1.0, (k, k)), 2)
                     A = (A + A.T) / 2
+                if it % 15 == 2:
+                    A = np.identity(k)          # self-loops only: k equally squeezed modes
                 Ain, kw = A, dict(mean_photon_per_mode=mean)
             else:
                 B = np.round(rs.uniform(0.1, 1.0, (k // 2, k // 2)), 2)
@@ -770,7 +783,10 @@ def oracle_matrix_ops(ctx, sf):
                 Ain, kw = (B if edges else A), dict(mean_photon_per_mode=mean, edges=edges, drop_identity=rng.random() < 0.6)
             op = dict(cls=kind, regs=regs, pars=[dec02.enc(Ain)], kw=kw)
             spec = dict(n=n, ops=[op])
-            rp = dict(kind="matrix", mkind=kind, spec=spec, A=dec02.enc(A), mean=mean, sig=f"graph-embed:{kind}")
+            sig = f"graph-embed:{kind}"
+            if kind == "GraphEmbed" and np.array_equal(A, np.identity(k)):
+                sig = "graph-embed:GraphEmbed:identity-adjacency-emits-nothing"
+            rp = dict(kind="matrix", mkind=kind, spec=spec, A=dec02.enc(A), mean=mean, sig=sig)
             ctx.count(f"graph-embed:{kind}", dict(A=np.round(A, 4).tolist(), r=regs, m=mean), True)
         matrix_case(ctx, sf, rp)
 
